@@ -3,7 +3,7 @@
    theorems identify that measure with the circuit's own distribution. *)
 From Coq Require Import List Arith ZArith Ring Bool.
 From DV Require Import Model.Core Model.Clt Model.Leaves Model.Mpe Model.Sample
-  Proofs.CoreFacts Proofs.CltFacts Proofs.MpeFacts Proofs.SampleFacts.
+  Proofs.CoreFacts Proofs.CltFacts Proofs.MpeFacts Proofs.SampleFacts Proofs.SampleClt.
 Import ListNotations.
 
 Section C07_circuit.
@@ -55,8 +55,61 @@ Section C07_circuit.
   Proof. exact (smeas_keys T t0 t1 tadd tmul dom leaf leaf_val leaf_meas). Qed.
 End C07_circuit.
 
+Section C07_clt.
+  Variable T : Type.
+  Variables (t0 t1 : T) (tadd tmul : T -> T -> T).
+  Hypothesis SRth : semi_ring_theory t0 t1 tadd tmul (@eq T).
+  Variable tdiv : T -> T -> T.
+  Hypothesis div_mul : forall a b, b <> t0 -> tmul (tdiv a b) b = a.     (* a partial division *)
+  Let up := up T t0 t1 tadd tmul.
+  Let cmeas := cmeas T t0 t1 tadd tmul tdiv.
+
+  (* Chow-Liu trees, evidence anywhere (above and below the sampled variables): the root-to-leaves sampler
+     with conditionals cpt_j[x_pa][k] * msg_j[k] / sum_k' (...) puts on every row c the mass P(c) / P(evidence)
+     when c completes r and 0 otherwise (written without cancellation; `up t pv r` is P(evidence), non-zero by nz).
+     nz: no normaliser met by the sampler on r is zero (true for strictly positive CPTs and in-domain evidence;
+     decided by Sample.nzb, SampleClt.nzb_sound); supp: CPT entries outside {0,1} are zero (holds for every tree
+     built from the array representation: SampleClt.supp_clt_tree). *)
+  Theorem C07_clt_measure : forall t : ctree T, NoDup (vars T t) -> supp T t0 t ->
+      forall pv r, nz T t0 t1 tadd tmul t pv r -> forall c,
+      tmul (mass_at T t0 tadd (cmeas t pv r) r (vars T t) c) (up t pv r) =
+      if compl_b r (vars T t) c then up t pv c else t0.
+  Proof. exact (cmeas_mass T t0 t1 tadd tmul SRth tdiv div_mul). Qed.
+
+  Theorem C07_clt_total : forall (t : ctree T) pv r, nz T t0 t1 tadd tmul t pv r ->
+      tmul (total T t0 tadd (cmeas t pv r)) (up t pv r) = up t pv r.
+  Proof. exact (cmeas_total T t0 t1 tadd tmul SRth tdiv div_mul). Qed.
+
+  Theorem C07_clt_writes_only_missing_cells : forall (t : ctree T) pv r a, In a (map fst (cmeas t pv r)) ->
+      forall v, In v (map fst a) <-> In v (vars T t) /\ r v = None.
+  Proof. exact (cmeas_keys T t0 t1 tadd tmul tdiv). Qed.
+
+  (* circuits over the built-in leaf families (table leaves: Bernoulli, Categorical, binned continuous leaves;
+     Chow-Liu leaves): the leaf obligations of C07_measure are discharged from checkable side conditions *)
+  Variable dom : nat -> list Z.
+  Theorem C07_measure_builtin_leaves : forall r (t : table T (leaf T)),
+      valid T t0 tadd dom (leaf T) (leaf_val T t0 t1 tadd tmul) t -> builtin_table_ok T t0 t1 tadd tmul r t ->
+      forall i, i < length t -> forall c,
+      mass_at T t0 tadd (meas_at T t1 tmul (leaf T) (lmeas T t0 t1 tadd tmul tdiv) t i r) r (scope_of T (leaf T) t i) c =
+      if compl_b r (scope_of T (leaf T) t i) c
+      then val T t0 t1 tadd tmul (leaf T) (leaf_val T t0 t1 tadd tmul) t i c else t0.
+  Proof. exact (builtin_mass T t0 t1 tadd tmul SRth tdiv div_mul dom). Qed.
+
+  Theorem C07_total_builtin_leaves : forall r (t : table T (leaf T)),
+      valid T t0 tadd dom (leaf T) (leaf_val T t0 t1 tadd tmul) t -> builtin_table_ok T t0 t1 tadd tmul r t ->
+      forall i, i < length t ->
+      total T t0 tadd (meas_at T t1 tmul (leaf T) (lmeas T t0 t1 tadd tmul tdiv) t i r) =
+      val T t0 t1 tadd tmul (leaf T) (leaf_val T t0 t1 tadd tmul) t i r.
+  Proof. exact (builtin_total T t0 t1 tadd tmul SRth tdiv div_mul dom). Qed.
+End C07_clt.
+
 Print Assumptions C07_measure.
 Print Assumptions C07_total.
 Print Assumptions C07_branch_law.
 Print Assumptions C07_fills_exactly_missing.
 Print Assumptions C07_writes_only_missing_cells.
+Print Assumptions C07_clt_measure.
+Print Assumptions C07_clt_total.
+Print Assumptions C07_clt_writes_only_missing_cells.
+Print Assumptions C07_measure_builtin_leaves.
+Print Assumptions C07_total_builtin_leaves.
